@@ -827,11 +827,11 @@ pub fn run(tier: Tier) -> i32 {
         let mut jumpy = two(false);
         jumpy.allow_unreachable_node = true;
         jumpy.time_jumps = true;
-        blocks.push(Block { name: "N=2, 2 operations, one node unreachable until a chosen moment, restarts, 55-minute jumps between and after operations, <=4 deviations", cfg: jumpy, histories: sequences(&al2, 2), bound: 4 });
+        blocks.push(Block { name: "N=2, 2 operations, one node unreachable until a chosen moment, restarts, 55-minute jumps between and after operations, <=3 deviations", cfg: jumpy, histories: sequences(&al2, 2), bound: 3 });
         let mut jumpy3 = two(false);
         jumpy3.allow_unreachable_node = true;
         jumpy3.time_jumps = true;
-        blocks.push(Block { name: "N=2, 3 operations (thinned), one node unreachable, restarts, 55-minute jumps, <=3 deviations", cfg: jumpy3, histories: sequences(&al2_thin, 3), bound: 3 });
+        blocks.push(Block { name: "N=2, 3 operations (thinned), one node unreachable, restarts, 55-minute jumps, <=2 deviations", cfg: jumpy3, histories: sequences(&al2_thin, 3), bound: 2 });
         let mut faulty = two(false);
         faulty.faulty_repairs = true;
         blocks.push(Block { name: "N=2, 1 operation, repair exchanges may lose any of their requests (also after the last operation), <=5 deviations", cfg: faulty, histories: sequences(&al2, 1), bound: 5 });
